@@ -383,6 +383,435 @@ end E
 example {F : Type} [FloatSpec F] : (⟨one, ⟨zero, 1⟩⟩ : Geonum F).angle.Inv := inv_zero 1
 
 
+/-! ### B-tier: the quadrilateral area helper in ROUNDED arithmetic -/
+section B
+variable {F : Type} [FloatSpec F]
+
+/-- perturbation of a planar cross product -/
+theorem cross_pert (a b c d a' b' c' d' : ℝ) :
+    |(a * d - b * c) - (a' * d' - b' * c')| ≤ |a - a'| * |d| + |a'| * |d - d'| + (|b - b'| * |c| + |b'| * |c - c'|) := by
+  have e : (a * d - b * c) - (a' * d' - b' * c') = ((a - a') * d + a' * (d - d')) - ((b - b') * c + b' * (c - c')) := by ring
+  rw [e]
+  calc |((a - a') * d + a' * (d - d')) - ((b - b') * c + b' * (c - c'))|
+      ≤ |(a - a') * d + a' * (d - d')| + |(b - b') * c + b' * (c - c')| := abs_sub _ _
+    _ ≤ (|(a - a') * d| + |a' * (d - d')|) + (|(b - b') * c| + |b' * (c - c')|) := add_le_add (abs_add_le _ _) (abs_add_le _ _)
+    _ = _ := by rw [abs_mul, abs_mul, abs_mul, abs_mul]
+
+/-- a length is at most the sum of the absolute values of its two Cartesian components, and each component is at most the length -/
+theorem mag_le_components {m t : ℝ} (hm : 0 ≤ m) :
+    m ≤ |m * Real.cos t| + |m * Real.sin t| ∧ |m * Real.cos t| ≤ m ∧ |m * Real.sin t| ≤ m := by
+  have hc := Real.abs_cos_le_one t
+  have hs := Real.abs_sin_le_one t
+  have h1 : Real.cos t ^ 2 ≤ |Real.cos t| := by
+    rw [← sq_abs]; nlinarith [abs_nonneg (Real.cos t)]
+  have h2 : Real.sin t ^ 2 ≤ |Real.sin t| := by
+    rw [← sq_abs]; nlinarith [abs_nonneg (Real.sin t)]
+  have h3 := Real.cos_sq_add_sin_sq t
+  have h4 : 1 ≤ |Real.cos t| + |Real.sin t| := by linarith
+  rw [abs_mul, abs_mul, abs_of_nonneg hm]
+  refine ⟨by nlinarith, ?_, ?_⟩
+  · calc m * |Real.cos t| ≤ m * 1 := mul_le_mul_of_nonneg_left hc hm
+      _ = m := mul_one _
+  · calc m * |Real.sin t| ≤ m * 1 := mul_le_mul_of_nonneg_left hs hm
+      _ = m := mul_one _
+
+/-- the Cartesian components of a number (angles in true radians) -/
+noncomputable def cx (g : Geonum F) : ℝ := val g.mag * Real.cos (Angle.Tpi g.angle)
+noncomputable def cy (g : Geonum F) : ℝ := val g.mag * Real.sin (Angle.Tpi g.angle)
+
+/-- **the wedge magnitude of two numbers is the planar cross product of their Cartesian components, in rounded arithmetic** -/
+theorem wedge_is_cross_float {e f : Geonum F} (he : e.angle.Inv) (hf : f.angle.Inv) (hme : e.MagDom) (hmf : f.MagDom) :
+    abs (val (e.wedge f).mag - abs (cx e * cy f - cy e * cx f)) ≤ val e.mag * val f.mag * (val (e10 : F) + 1 / 10 ^ 14) + 1 / 10 ^ 29 := by
+  have h := C10.wedge_mag_float he hf hme hmf
+  have hid : cx e * cy f - cy e * cx f = val e.mag * val f.mag * Real.sin (Angle.Tpi f.angle - Angle.Tpi e.angle) := by
+    unfold cx cy; rw [Real.sin_sub]; ring
+  rw [hid, abs_mul, abs_of_nonneg (mul_nonneg hme.2.1 hmf.2.1)]
+  exact h
+
+/-- the reference area of the four Cartesian corners: half the absolute cross products of the triangles `P1 P2 P3` and `P1 P3 P4` -/
+noncomputable def areaRefF (p1 p2 p3 p4 : Geonum F) : ℝ :=
+  (|(cx p2 - cx p1) * (cy p3 - cy p1) - (cy p2 - cy p1) * (cx p3 - cx p1)|
+    + |(cx p3 - cx p1) * (cy p4 - cy p1) - (cy p3 - cy p1) * (cx p4 - cx p1)|) / 2
+
+/-- the placement tolerance of one edge `p − q` for corner lengths up to `R` and blade sums up to `K` (the every-branch C06 bound) -/
+noncomputable def edgeTol (F : Type) [FloatSpec F] (R : ℝ) (K : ℕ) : ℝ :=
+  2 * R * (2 / 10 ^ 7 + 11 / 10 * (val (e10 : F) + (40 * (K : ℝ) + 170) * (1 / 2 ^ 53))) + 1 / 10 ^ 28 + 2 * val (e10 : F)
+
+theorem edgeTol_le {R : ℝ} {K : ℕ} (hR0 : 0 ≤ R) (hK : K ≤ 2 ^ 39) : 0 ≤ edgeTol F R K ∧ edgeTol F R K ≤ R + 1 := by
+  have he := val_e10_pos (F := F); have hes := val_e10_small (F := F)
+  have hKr : (K : ℝ) ≤ 2 ^ 39 := by exact_mod_cast hK
+  have hK0 : (0:ℝ) ≤ (K : ℝ) := Nat.cast_nonneg _
+  have hρ : 2 / 10 ^ 7 + 11 / 10 * (val (e10 : F) + (40 * (K : ℝ) + 170) * (1 / 2 ^ 53)) ≤ 1 / 2 := by
+    have h1 : (40 * (K : ℝ) + 170) * (1 / 2 ^ 53) ≤ (40 * 2 ^ 39 + 170) * (1 / 2 ^ 53) :=
+      mul_le_mul_of_nonneg_right (by linarith) (by positivity)
+    have h2 : ((40:ℝ) * 2 ^ 39 + 170) * (1 / 2 ^ 53) ≤ 1 / 100 := by norm_num
+    have h3 : (1:ℝ) / 10 ^ 9 ≤ 1 / 100 := by norm_num
+    have h4 : (2:ℝ) / 10 ^ 7 ≤ 1 / 100 := by norm_num
+    linarith
+  have hρ0 : 0 ≤ 2 / 10 ^ 7 + 11 / 10 * (val (e10 : F) + (40 * (K : ℝ) + 170) * (1 / 2 ^ 53)) := by positivity
+  unfold edgeTol
+  have h28 : (0:ℝ) ≤ 1 / 10 ^ 28 := by positivity
+  have h28' : (1:ℝ) / 10 ^ 28 ≤ 1 / 2 := by norm_num
+  have h9 : (1:ℝ) / 10 ^ 9 ≤ 1 / 8 := by norm_num
+  constructor
+  · have := mul_nonneg (mul_nonneg (by norm_num : (0:ℝ) ≤ 2) hR0) hρ0
+    linarith
+  · have := mul_le_mul_of_nonneg_left hρ (mul_nonneg (by norm_num : (0:ℝ) ≤ 2) hR0)
+    linarith
+
+/-- **one edge in rounded arithmetic**: `p − q` is canonical, in the magnitude domain, placed at the Cartesian difference of the corners
+    within `edgeTol`, and of length at most `4R + 2·edgeTol` -/
+theorem edge_float {p q : Geonum F} {R : ℝ} {K : ℕ} (hp : p.angle.Inv) (hq : q.angle.Inv) (hmp : p.MagDom) (hmq : q.MagDom)
+    (hpR : val p.mag ≤ R) (hqR : val q.mag ≤ R) (hR : R ≤ 10 ^ 98) (hcb : p.angle.blade + q.angle.blade + 2 ≤ K) (hK : K ≤ 2 ^ 39) :
+    (p.sub q).angle.Inv ∧ (p.sub q).MagDom ∧ |cx (p.sub q) - (cx p - cx q)| ≤ edgeTol F R K ∧
+    |cy (p.sub q) - (cy p - cy q)| ≤ edgeTol F R K ∧ val (p.sub q).mag ≤ 4 * R + 2 * edgeTol F R K := by
+  have hR0 : 0 ≤ R := le_trans hmp.2.1 hpR
+  obtain ⟨hδ0, hδ1⟩ := edgeTol_le (F := F) hR0 hK
+  have hn := negate_spec hq
+  have hninv : q.negate.angle.Inv := inv_of_spec hq hn.2
+  have hmqn : q.negate.MagDom := hmq
+  have hcb' : p.angle.blade + q.negate.angle.blade ≤ 2 ^ 39 := by
+    show p.angle.blade + q.angle.negate.blade ≤ 2 ^ 39
+    rw [hn.1]; omega
+  have hinv : (p.sub q).angle.Inv := C01.add_angle_inv hp hninv hmp hmqn hcb'
+  obtain ⟨hfin, h0⟩ := C01.add_mag_ok' hmp hmqn hp hninv
+  obtain ⟨s1, s2⟩ := Geonum.sub_cartesian_every_branch_float hp hq hmp hmq (by omega)
+  -- the per-pair bound is below the uniform one
+  have hbound : (val p.mag + val q.mag) * (2 / 10 ^ 7 + 11 / 10 * (val (e10 : F)
+        + (40 * ((p.angle.blade + q.angle.blade + 2 : ℕ) : ℝ) + 170) * (1 / 2 ^ 53))) + 1 / 10 ^ 28 + 2 * val (e10 : F)
+      ≤ edgeTol F R K := by
+    unfold edgeTol
+    have he := val_e10_pos (F := F)
+    have hle : ((p.angle.blade + q.angle.blade + 2 : ℕ) : ℝ) ≤ (K : ℝ) := by exact_mod_cast hcb
+    have h1 : (40 * ((p.angle.blade + q.angle.blade + 2 : ℕ) : ℝ) + 170) * (1 / 2 ^ 53) ≤ (40 * (K : ℝ) + 170) * (1 / 2 ^ 53) :=
+      mul_le_mul_of_nonneg_right (by linarith) (by positivity)
+    have hc0 : (0:ℝ) ≤ ((p.angle.blade + q.angle.blade + 2 : ℕ) : ℝ) := Nat.cast_nonneg _
+    have hρ0 : 0 ≤ 2 / 10 ^ 7 + 11 / 10 * (val (e10 : F)
+        + (40 * ((p.angle.blade + q.angle.blade + 2 : ℕ) : ℝ) + 170) * (1 / 2 ^ 53)) := by positivity
+    have hK0 : (0:ℝ) ≤ (K : ℝ) := Nat.cast_nonneg _
+    have hρK0 : 0 ≤ 2 / 10 ^ 7 + 11 / 10 * (val (e10 : F) + (40 * (K : ℝ) + 170) * (1 / 2 ^ 53)) := by positivity
+    have hsum : val p.mag + val q.mag ≤ 2 * R := by linarith
+    have := mul_le_mul hsum (show 2 / 10 ^ 7 + 11 / 10 * (val (e10 : F)
+        + (40 * ((p.angle.blade + q.angle.blade + 2 : ℕ) : ℝ) + 170) * (1 / 2 ^ 53)) ≤
+        2 / 10 ^ 7 + 11 / 10 * (val (e10 : F) + (40 * (K : ℝ) + 170) * (1 / 2 ^ 53)) by linarith) hρ0 (by linarith)
+    linarith
+  have c1 : |cx (p.sub q) - (cx p - cx q)| ≤ edgeTol F R K := by
+    have e : cx (p.sub q) - (cx p - cx q) = cx (p.sub q) + cx q - cx p := by ring
+    rw [e]; exact le_trans s1 hbound
+  have c2 : |cy (p.sub q) - (cy p - cy q)| ≤ edgeTol F R K := by
+    have e : cy (p.sub q) - (cy p - cy q) = cy (p.sub q) + cy q - cy p := by ring
+    rw [e]; exact le_trans s2 hbound
+  -- the edge length from its components
+  obtain ⟨hm, _, _⟩ := mag_le_components (m := val (p.sub q).mag) (t := Angle.Tpi (p.sub q).angle) h0
+  obtain ⟨_, hpx, hpy⟩ := mag_le_components (m := val p.mag) (t := Angle.Tpi p.angle) hmp.2.1
+  obtain ⟨_, hqx, hqy⟩ := mag_le_components (m := val q.mag) (t := Angle.Tpi q.angle) hmq.2.1
+  have hx : |cx (p.sub q)| ≤ 2 * R + edgeTol F R K := by
+    have := abs_sub_abs_le_abs_sub (cx (p.sub q)) (cx p - cx q)
+    have h2 : |cx p - cx q| ≤ |cx p| + |cx q| := abs_sub _ _
+    unfold cx at *; linarith
+  have hy : |cy (p.sub q)| ≤ 2 * R + edgeTol F R K := by
+    have := abs_sub_abs_le_abs_sub (cy (p.sub q)) (cy p - cy q)
+    have h2 : |cy p - cy q| ≤ |cy p| + |cy q| := abs_sub _ _
+    unfold cy at *; linarith
+  have hlen : val (p.sub q).mag ≤ 4 * R + 2 * edgeTol F R K := by
+    unfold cx at hx; unfold cy at hy; linarith
+  refine ⟨hinv, ⟨hfin, h0, ?_⟩, c1, c2, hlen⟩
+  have : (6:ℝ) * 10 ^ 98 + 2 ≤ 10 ^ 100 := by norm_num
+  linarith
+
+theorem wedge_mag_fin {e f : Geonum F} (he : e.angle.Inv) (hf : f.angle.Inv) (hme : e.MagDom) (hmf : f.MagDom) :
+    Fin (e.wedge f).mag := by
+  have hg := gradeAngle_fin (geometricSub_inv hf he)
+  have hr : InRange (F := F) (val e.mag * val f.mag) := inRange_of_le (by
+    rw [abs_of_nonneg (mul_nonneg hme.2.1 hmf.2.1)]
+    have : val e.mag * val f.mag ≤ 10 ^ 100 * 10 ^ 100 := mul_le_mul hme.2.2 hmf.2.2 hmf.2.1 (by positivity)
+    norm_num at this ⊢; linarith)
+  obtain ⟨hfp, hvp⟩ := fmul_spec hme.1 hmf.1 hr
+  obtain ⟨hfs, hs1, _⟩ := sin_spec hg
+  obtain ⟨hfa, hva⟩ := fabs_spec hfs
+  have hle : |val (fmul e.mag f.mag) * val (fabs (FloatLike.sin (f.angle.geometricSub e.angle).gradeAngle))| ≤ |val (fmul e.mag f.mag)| := by
+    rw [abs_mul, hva, abs_abs]
+    calc |val (fmul e.mag f.mag)| * |val (FloatLike.sin (f.angle.geometricSub e.angle).gradeAngle)|
+        ≤ |val (fmul e.mag f.mag)| * 1 := mul_le_mul_of_nonneg_left hs1 (abs_nonneg _)
+      _ = _ := mul_one _
+  exact (fmul_spec hfp hfa (inRange_mono hle (inRange_val hfp))).1
+
+/-- halving two wedge magnitudes and adding them, with every rounding accounted for -/
+theorem area_assemble {w1 w2 t1 t2 A c1 c2 E Wb ε τ : ℝ} (hε0 : 0 ≤ ε) (hε1 : ε ≤ 1) (hτ0 : 0 ≤ τ) (hWb : 0 ≤ Wb)
+    (h1 : |w1 - c1| ≤ E) (h2 : |w2 - c2| ≤ E) (hw1 : |w1| ≤ Wb) (hw2 : |w2| ≤ Wb)
+    (ht1 : |t1 - w1 / 2| ≤ |w1 / 2| * ε + τ) (ht2 : |t2 - w2 / 2| ≤ |w2 / 2| * ε + τ)
+    (hA : |A - (t1 + t2)| ≤ |t1 + t2| * ε + τ) :
+    |A - (c1 + c2) / 2| ≤ E + 3 * Wb * ε + 5 * τ := by
+  have e1 : |w1 / 2| = |w1| / 2 := by rw [abs_div, abs_of_pos (by norm_num : (0:ℝ) < 2)]
+  have e2 : |w2 / 2| = |w2| / 2 := by rw [abs_div, abs_of_pos (by norm_num : (0:ℝ) < 2)]
+  rw [e1] at ht1; rw [e2] at ht2
+  have hWε : 0 ≤ Wb * ε := mul_nonneg hWb hε0
+  have p1 : |w1| / 2 * ε ≤ Wb / 2 * ε := mul_le_mul_of_nonneg_right (by linarith) hε0
+  have p2 : |w2| / 2 * ε ≤ Wb / 2 * ε := mul_le_mul_of_nonneg_right (by linarith) hε0
+  have hWε1 : Wb * ε ≤ Wb := by
+    calc Wb * ε ≤ Wb * 1 := mul_le_mul_of_nonneg_left hε1 hWb
+      _ = Wb := mul_one _
+  have hτε : τ * ε ≤ τ := by
+    calc τ * ε ≤ τ * 1 := mul_le_mul_of_nonneg_left hε1 hτ0
+      _ = τ := mul_one _
+  rw [abs_le] at h1 h2 hw1 hw2 ht1 ht2
+  have hs : |t1 + t2| ≤ 2 * Wb + 2 * τ := by
+    rw [abs_le]; constructor <;> linarith [ht1.1, ht1.2, ht2.1, ht2.2, hw1.1, hw1.2, hw2.1, hw2.2]
+  have hsε : |t1 + t2| * ε ≤ (2 * Wb + 2 * τ) * ε := mul_le_mul_of_nonneg_right hs hε0
+  have e3 : (2 * Wb + 2 * τ) * ε = 2 * (Wb * ε) + 2 * (τ * ε) := by ring
+  rw [e3] at hsε
+  have e4 : Wb / 2 * ε = Wb * ε / 2 := by ring
+  rw [e4] at p1 p2
+  rw [abs_le] at hA ⊢
+  constructor <;> linarith [hA.1, hA.2, ht1.1, ht1.2, ht2.1, ht2.2, h1.1, h1.2, h2.1, h2.2]
+
+/-- the accuracy of the area helper for corner lengths up to `R` and blade sums up to `K` -/
+noncomputable def areaTolF (F : Type) [FloatSpec F] (R : ℝ) (K : ℕ) : ℝ :=
+  (4 * R + 2 * edgeTol F R K) * (4 * R + 2 * edgeTol F R K) * (val (e10 : F) + 1 / 10 ^ 14) + 1 / 10 ^ 29
+    + 2 * edgeTol F R K * (4 * R + 2 * edgeTol F R K) + 4 * R * edgeTol F R K
+    + 3 * (2 * ((4 * R + 2 * edgeTol F R K) * (4 * R + 2 * edgeTol F R K)) + 1) * (1 / 2 ^ 53) + 5 * (1 / 2 ^ 1075)
+
+/-- one triangle: the wedge of two edges against the cross product of the true corner differences -/
+theorem triangle_float {e f : Geonum F} {R M δ : ℝ} {xe ye xf yf : ℝ} (he : e.angle.Inv) (hf : f.angle.Inv)
+    (hme : e.MagDom) (hmf : f.MagDom) (hR0 : 0 ≤ R) (hδ0 : 0 ≤ δ) (hM0 : 0 ≤ M) (hle : val e.mag ≤ M) (hlf : val f.mag ≤ M)
+    (dex : |cx e - xe| ≤ δ) (dey : |cy e - ye| ≤ δ) (dfx : |cx f - xf| ≤ δ) (dfy : |cy f - yf| ≤ δ)
+    (hxe : |xe| ≤ 2 * R) (hye : |ye| ≤ 2 * R) :
+    abs (val (e.wedge f).mag - abs (xe * yf - ye * xf))
+      ≤ M * M * (val (e10 : F) + 1 / 10 ^ 14) + 1 / 10 ^ 29 + 2 * δ * M + 4 * R * δ ∧
+    |val (e.wedge f).mag| ≤ 2 * (M * M) + 1 := by
+  have hw := wedge_is_cross_float he hf hme hmf
+  have he10 := val_e10_pos (F := F); have he10s := val_e10_small (F := F)
+  have hmm : val e.mag * val f.mag ≤ M * M := mul_le_mul hle hlf hmf.2.1 hM0
+  have hmm0 : 0 ≤ val e.mag * val f.mag := mul_nonneg hme.2.1 hmf.2.1
+  have hw' : val e.mag * val f.mag * (val (e10 : F) + 1 / 10 ^ 14) ≤ M * M * (val (e10 : F) + 1 / 10 ^ 14) :=
+    mul_le_mul_of_nonneg_right hmm (by positivity)
+  obtain ⟨_, hfx, hfy⟩ := mag_le_components (m := val f.mag) (t := Angle.Tpi f.angle) hmf.2.1
+  have hcyf : |cy f| ≤ M := le_trans hfy hlf
+  have hcxf : |cx f| ≤ M := le_trans hfx hlf
+  have hp := cross_pert (cx e) (cy e) (cx f) (cy f) xe ye xf yf
+  have q1 : |cx e - xe| * |cy f| ≤ δ * M := mul_le_mul dex hcyf (abs_nonneg _) hδ0
+  have q2 : |xe| * |cy f - yf| ≤ 2 * R * δ := mul_le_mul hxe dfy (abs_nonneg _) (by linarith)
+  have q3 : |cy e - ye| * |cx f| ≤ δ * M := mul_le_mul dey hcxf (abs_nonneg _) hδ0
+  have q4 : |ye| * |cx f - xf| ≤ 2 * R * δ := mul_le_mul hye dfx (abs_nonneg _) (by linarith)
+  have hcc := abs_abs_sub_abs_le_abs_sub (cx e * cy f - cy e * cx f) (xe * yf - ye * xf)
+  have hcr : |cx e * cy f - cy e * cx f| ≤ M * M := by
+    have hid : cx e * cy f - cy e * cx f = val e.mag * val f.mag * Real.sin (Angle.Tpi f.angle - Angle.Tpi e.angle) := by
+      unfold cx cy; rw [Real.sin_sub]; ring
+    rw [hid, abs_mul, abs_of_nonneg hmm0]
+    calc val e.mag * val f.mag * |Real.sin (Angle.Tpi f.angle - Angle.Tpi e.angle)| ≤ val e.mag * val f.mag * 1 :=
+          mul_le_mul_of_nonneg_left (Real.abs_sin_le_one _) hmm0
+      _ = val e.mag * val f.mag := mul_one _
+      _ ≤ M * M := hmm
+  have hMM : 0 ≤ M * M := mul_nonneg hM0 hM0
+  constructor
+  · have := abs_sub_le (val (e.wedge f).mag) (abs (cx e * cy f - cy e * cx f)) (abs (xe * yf - ye * xf))
+    linarith
+  · have h3 : |val (e.wedge f).mag| ≤ |cx e * cy f - cy e * cx f| + abs (val (e.wedge f).mag - abs (cx e * cy f - cy e * cx f)) := by
+      have := abs_sub_abs_le_abs_sub (val (e.wedge f).mag) (abs (cx e * cy f - cy e * cx f))
+      rw [abs_abs] at this; linarith
+    have h4 : M * M * (val (e10 : F) + 1 / 10 ^ 14) ≤ M * M * 1 :=
+      mul_le_mul_of_nonneg_left (by have : (1:ℝ) / 10 ^ 9 + 1 / 10 ^ 14 ≤ 1 := by norm_num
+                                    linarith) hMM
+    have h29 : (1:ℝ) / 10 ^ 29 ≤ 1 := by norm_num
+    linarith
+
+/-- (B) **the quadrilateral area helper in ROUNDED arithmetic is the two-triangle cross-product area of the Cartesian corners**, to within
+    `areaTolF R K` for corners of length at most `R ≤ 1e40` and blade sums at most `K ≤ 2^39` — the composed statement: each edge through
+    `negate` and `+` (every branch), the wedge of the edges (libm sine of the rounded angle difference), both halvings and the final sum, all
+    roundings accounted for.  `areaTolF R K ≈ R²·(5e-6 + 6.5e-2·K/2^39)` (`areaTolF_small`: at most `6e-6·(1+R)²` for `K ≤ 1e6`): dominated by the
+    `√ε`-of-scale placement error of an edge under cancellation, and for huge blade counts by the f64 product `cb·π/2` -/
+theorem area_float {p1 p2 p3 p4 : Geonum F} {R : ℝ} {K : ℕ}
+    (h1 : p1.angle.Inv) (h2 : p2.angle.Inv) (h3 : p3.angle.Inv) (h4 : p4.angle.Inv)
+    (m1 : p1.MagDom) (m2 : p2.MagDom) (m3 : p3.MagDom) (m4 : p4.MagDom)
+    (r1 : val p1.mag ≤ R) (r2 : val p2.mag ≤ R) (r3 : val p3.mag ≤ R) (r4 : val p4.mag ≤ R) (hR : R ≤ 10 ^ 40)
+    (b2 : p2.angle.blade + p1.angle.blade + 2 ≤ K) (b3 : p3.angle.blade + p1.angle.blade + 2 ≤ K)
+    (b4 : p4.angle.blade + p1.angle.blade + 2 ≤ K) (hK : K ≤ 2 ^ 39) :
+    |val (Affine.areaQuadrilateral p1 p2 p3 p4) - areaRefF p1 p2 p3 p4| ≤ areaTolF F R K := by
+  have hR0 : 0 ≤ R := le_trans m1.2.1 r1
+  have hR98 : R ≤ 10 ^ 98 := le_trans hR (pow_le_pow_right₀ (by norm_num) (by norm_num))
+  obtain ⟨hδ0, hδ1⟩ := edgeTol_le (F := F) hR0 hK
+  obtain ⟨i2, d2, x2, y2, l2⟩ := edge_float h2 h1 m2 m1 r2 r1 hR98 b2 hK
+  obtain ⟨i3, d3, x3, y3, l3⟩ := edge_float h3 h1 m3 m1 r3 r1 hR98 b3 hK
+  obtain ⟨i4, d4, x4, y4, l4⟩ := edge_float h4 h1 m4 m1 r4 r1 hR98 b4 hK
+  set δ := edgeTol F R K with hδ
+  obtain ⟨M, hM⟩ : ∃ M : ℝ, M = 4 * R + 2 * δ := ⟨_, rfl⟩
+  have hM0 : 0 ≤ M := by rw [hM]; linarith
+  have hM41 : M ≤ 10 ^ 41 := by
+    rw [hM]
+    have : (6:ℝ) * 10 ^ 40 + 2 ≤ 10 ^ 41 := by norm_num
+    linarith
+  rw [← hM] at l2 l3 l4
+  -- true corner differences are at most 2R in each component
+  have comp : ∀ {p : Geonum F}, p.MagDom → val p.mag ≤ R → |cx p - cx p1| ≤ 2 * R ∧ |cy p - cy p1| ≤ 2 * R := by
+    intro p mp rp
+    obtain ⟨_, hpx, hpy⟩ := mag_le_components (m := val p.mag) (t := Angle.Tpi p.angle) mp.2.1
+    obtain ⟨_, hqx, hqy⟩ := mag_le_components (m := val p1.mag) (t := Angle.Tpi p1.angle) m1.2.1
+    have a1 : |cx p - cx p1| ≤ |cx p| + |cx p1| := abs_sub _ _
+    have a2 : |cy p - cy p1| ≤ |cy p| + |cy p1| := abs_sub _ _
+    unfold cx at *; unfold cy at *
+    exact ⟨by linarith, by linarith⟩
+  obtain ⟨cx2, cy2⟩ := comp m2 r2
+  obtain ⟨cx3, cy3⟩ := comp m3 r3
+  obtain ⟨t1e, t1w⟩ := triangle_float i2 i3 d2 d3 hR0 hδ0 hM0 l2 l3 x2 y2 x3 y3 cx2 cy2
+  obtain ⟨t2e, t2w⟩ := triangle_float i3 i4 d3 d4 hR0 hδ0 hM0 l3 l4 x3 y3 x4 y4 cx3 cy3
+  -- the two halvings and the sum
+  have hfw1 := wedge_mag_fin i2 i3 d2 d3
+  have hfw2 := wedge_mag_fin i3 i4 d3 d4
+  have hMM : M * M ≤ 10 ^ 82 := by
+    calc M * M ≤ 10 ^ 41 * 10 ^ 41 := mul_le_mul hM41 hM41 hM0 (by positivity)
+      _ = 10 ^ 82 := by rw [← pow_add]
+  have hMM0 : 0 ≤ M * M := mul_nonneg hM0 hM0
+  have hWb : 2 * (M * M) + 1 ≤ 10 ^ 83 := by
+    have : (2:ℝ) * 10 ^ 82 + 1 ≤ 10 ^ 83 := by norm_num
+    linarith
+  have h2ne : val (two : F) ≠ 0 := by rw [val_two]; norm_num
+  have big : (10:ℝ) ^ 84 ≤ 10 ^ 250 := pow_le_pow_right₀ (by norm_num) (by norm_num)
+  have halfr : ∀ {w : F}, Fin w → |val w| ≤ 2 * (M * M) + 1 →
+      Fin (fdiv w two) ∧ |val (fdiv w two) - val w / 2| ≤ |val w / 2| * (1 / 2 ^ 53) + 1 / 2 ^ 1075 := by
+    intro w hw hb
+    have hin : InRange (F := F) (val w / val (two : F)) := inRange_of_le (by
+      rw [val_two, abs_div, abs_of_pos (by norm_num : (0:ℝ) < 2)]
+      have h83 : (10:ℝ) ^ 83 ≤ 10 ^ 84 := pow_le_pow_right₀ (by norm_num) (by norm_num)
+      linarith)
+    obtain ⟨hf, hv⟩ := fdiv_spec hw (fin_two (F := F)) h2ne hin
+    rw [val_two] at hv
+    refine ⟨hf, ?_⟩
+    rw [hv]; have := rnd_err (F := F) (val w / 2); rwa [div_eq_mul_one_div (|val w / 2|)] at this
+  obtain ⟨hft1, ht1⟩ := halfr hfw1 t1w
+  obtain ⟨hft2, ht2⟩ := halfr hfw2 t2w
+  have hsumb : |val (fdiv ((p2.sub p1).wedge (p3.sub p1)).mag two) + val (fdiv ((p3.sub p1).wedge (p4.sub p1)).mag two)| ≤ 10 ^ 84 := by
+    have e1 : ∀ w : ℝ, |w / 2| = |w| / 2 := fun w => by rw [abs_div, abs_of_pos (by norm_num : (0:ℝ) < 2)]
+    rw [e1] at ht1 ht2
+    have hε : (1:ℝ) / 2 ^ 53 ≤ 1 := by norm_num
+    have hτ : (1:ℝ) / 2 ^ 1075 ≤ 1 := by
+      rw [div_le_one (by positivity)]; exact one_le_pow₀ (by norm_num)
+    have q1 : |val ((p2.sub p1).wedge (p3.sub p1)).mag| / 2 * (1 / 2 ^ 53) ≤ |val ((p2.sub p1).wedge (p3.sub p1)).mag| / 2 * 1 :=
+      mul_le_mul_of_nonneg_left hε (by positivity)
+    have q2 : |val ((p3.sub p1).wedge (p4.sub p1)).mag| / 2 * (1 / 2 ^ 53) ≤ |val ((p3.sub p1).wedge (p4.sub p1)).mag| / 2 * 1 :=
+      mul_le_mul_of_nonneg_left hε (by positivity)
+    have a1 := t1w; have a2 := t2w
+    rw [abs_le] at ht1 ht2 t1w t2w ⊢
+    have h84 : (4:ℝ) * 10 ^ 83 + 2 ≤ 10 ^ 84 := by norm_num
+    constructor <;> linarith [ht1.1, ht1.2, ht2.1, ht2.2, t1w.1, t1w.2, t2w.1, t2w.2]
+  obtain ⟨hfa, hva⟩ := fadd_spec hft1 hft2 (inRange_of_le (le_trans hsumb big))
+  have hA : |val (Affine.areaQuadrilateral p1 p2 p3 p4)
+      - (val (fdiv ((p2.sub p1).wedge (p3.sub p1)).mag two) + val (fdiv ((p3.sub p1).wedge (p4.sub p1)).mag two))|
+      ≤ |val (fdiv ((p2.sub p1).wedge (p3.sub p1)).mag two) + val (fdiv ((p3.sub p1).wedge (p4.sub p1)).mag two)| * (1 / 2 ^ 53)
+        + 1 / 2 ^ 1075 := by
+    show |val (fadd (fdiv ((p2.sub p1).wedge (p3.sub p1)).mag two) (fdiv ((p3.sub p1).wedge (p4.sub p1)).mag two)) - _| ≤ _
+    rw [hva]
+    have := rnd_err (F := F) (val (fdiv ((p2.sub p1).wedge (p3.sub p1)).mag two) + val (fdiv ((p3.sub p1).wedge (p4.sub p1)).mag two))
+    rwa [div_eq_mul_one_div] at this
+  have key := area_assemble (ε := 1 / 2 ^ 53) (τ := 1 / 2 ^ 1075) (Wb := 2 * (M * M) + 1) (by positivity) (by norm_num) (by positivity)
+    (by linarith) t1e t2e t1w t2w ht1 ht2 hA
+  unfold areaRefF areaTolF
+  rw [← hδ, ← hM]
+  exact key
+
+/-- the tolerance in numbers: for blade sums up to `1e6` it is at most `6e-6·(1+R)²` -/
+theorem areaTolF_small {R : ℝ} {K : ℕ} (hR0 : 0 ≤ R) (hK : K ≤ 10 ^ 6) : areaTolF F R K ≤ 6 / 10 ^ 6 * ((1 + R) * (1 + R)) := by
+  have he := val_e10_pos (F := F)
+  have hes : val (e10 : F) ≤ 11 / 10 ^ 11 := (val_e10_bounds (F := F)).2
+  have hKr : (K : ℝ) ≤ 10 ^ 6 := by exact_mod_cast hK
+  have hK0 : (0:ℝ) ≤ (K : ℝ) := Nat.cast_nonneg _
+  obtain ⟨X, hX⟩ : ∃ X : ℝ, X = 1 + R := ⟨_, rfl⟩
+  have hX1 : 1 ≤ X := by rw [hX]; linarith
+  have hRX : R ≤ X := by rw [hX]; linarith
+  have hXX : 1 ≤ X * X := by nlinarith
+  -- ρ ≤ 2.1e-7
+  have hρ : 2 / 10 ^ 7 + 11 / 10 * (val (e10 : F) + (40 * (K : ℝ) + 170) * (1 / 2 ^ 53)) ≤ 21 / 10 ^ 8 := by
+    have h1 : (40 * (K : ℝ) + 170) * (1 / 2 ^ 53) ≤ (40 * 10 ^ 6 + 170) * (1 / 2 ^ 53) :=
+      mul_le_mul_of_nonneg_right (by linarith) (by positivity)
+    have h2 : ((40:ℝ) * 10 ^ 6 + 170) * (1 / 2 ^ 53) ≤ 5 / 10 ^ 9 := by norm_num
+    have h3 : (2:ℝ) / 10 ^ 7 + 11 / 10 * (11 / 10 ^ 11 + 5 / 10 ^ 9) ≤ 21 / 10 ^ 8 := by norm_num
+    linarith
+  have hρ0 : 0 ≤ 2 / 10 ^ 7 + 11 / 10 * (val (e10 : F) + (40 * (K : ℝ) + 170) * (1 / 2 ^ 53)) := by positivity
+  -- δ ≤ 4.3e-7·X
+  obtain ⟨δ, hδ⟩ : ∃ δ : ℝ, δ = edgeTol F R K := ⟨_, rfl⟩
+  have hδ0 : 0 ≤ δ := by
+    rw [hδ]; unfold edgeTol
+    have := mul_nonneg (mul_nonneg (by norm_num : (0:ℝ) ≤ 2) hR0) hρ0
+    have h28 : (0:ℝ) ≤ 1 / 10 ^ 28 := by positivity
+    linarith
+  have hδX : δ ≤ 43 / 10 ^ 8 * X := by
+    rw [hδ]; unfold edgeTol
+    have h1 := mul_le_mul_of_nonneg_left hρ (mul_nonneg (by norm_num : (0:ℝ) ≤ 2) hR0)
+    have h28 : (1:ℝ) / 10 ^ 28 + 2 * (11 / 10 ^ 11) ≤ 1 / 10 ^ 8 := by norm_num
+    have e : 2 * R * (21 / 10 ^ 8) = 42 / 10 ^ 8 * R := by ring
+    rw [e] at h1
+    have hRX' : 42 / 10 ^ 8 * R ≤ 42 / 10 ^ 8 * X := mul_le_mul_of_nonneg_left hRX (by norm_num)
+    have hX' : (1:ℝ) / 10 ^ 8 ≤ 1 / 10 ^ 8 * X := by
+      calc (1:ℝ) / 10 ^ 8 = 1 / 10 ^ 8 * 1 := (mul_one _).symm
+        _ ≤ 1 / 10 ^ 8 * X := mul_le_mul_of_nonneg_left hX1 (by norm_num)
+    linarith
+  -- M ≤ 4.1·X
+  obtain ⟨M, hM⟩ : ∃ M : ℝ, M = 4 * R + 2 * δ := ⟨_, rfl⟩
+  have hM0 : 0 ≤ M := by rw [hM]; linarith
+  have hX0 : 0 ≤ X := by linarith
+  have hMX : M ≤ 41 / 10 * X := by
+    rw [hM]
+    have : 2 * δ ≤ 1 / 10 * X := by linarith [mul_le_mul_of_nonneg_right (show (86:ℝ) / 10 ^ 8 ≤ 1 / 10 by norm_num) hX0]
+    linarith
+  have hMM : M * M ≤ 1681 / 100 * (X * X) := by
+    calc M * M ≤ (41 / 10 * X) * (41 / 10 * X) := mul_le_mul hMX hMX hM0 (by positivity)
+      _ = 1681 / 100 * (X * X) := by ring
+  have hMM0 : 0 ≤ M * M := mul_nonneg hM0 hM0
+  have hδM : δ * M ≤ 43 / 10 ^ 8 * X * (41 / 10 * X) := mul_le_mul hδX hMX hM0 (by positivity)
+  have hRδ : R * δ ≤ X * (43 / 10 ^ 8 * X) := mul_le_mul hRX hδX hδ0 hX0
+  have t1 : M * M * (val (e10 : F) + 1 / 10 ^ 14) ≤ 1681 / 100 * (X * X) * (12 / 10 ^ 11) := by
+    apply mul_le_mul hMM _ (by positivity) (by positivity)
+    have : (11:ℝ) / 10 ^ 11 + 1 / 10 ^ 14 ≤ 12 / 10 ^ 11 := by norm_num
+    linarith
+  have t5 : 3 * (2 * (M * M) + 1) * (1 / 2 ^ 53) ≤ 3 * (2 * (1681 / 100 * (X * X)) + X * X) * (1 / 2 ^ 53) := by
+    apply mul_le_mul_of_nonneg_right _ (by positivity)
+    linarith
+  have t6 : (5:ℝ) * (1 / 2 ^ 1075) ≤ 1 / 10 ^ 20 := by
+    have : (1:ℝ) / 2 ^ 1075 ≤ 1 / 2 ^ 80 := one_div_le_one_div_of_le (by positivity) (pow_le_pow_right₀ (by norm_num) (by norm_num))
+    have h2 : (5:ℝ) * (1 / 2 ^ 80) ≤ 1 / 10 ^ 20 := by norm_num
+    linarith
+  unfold areaTolF
+  rw [← hδ, ← hM, ← hX]
+  have e2 : 2 * δ * M = 2 * (δ * M) := by ring
+  have e3 : 4 * R * δ = 4 * (R * δ) := by ring
+  rw [e2, e3]
+  have hε : (1:ℝ) / 2 ^ 53 ≤ 2 / 10 ^ 16 := by norm_num
+  have t5' : 3 * (2 * (1681 / 100 * (X * X)) + X * X) * (1 / 2 ^ 53) ≤ 3 * (2 * (1681 / 100 * (X * X)) + X * X) * (2 / 10 ^ 16) :=
+    mul_le_mul_of_nonneg_left hε (by positivity)
+  have h29 : (1:ℝ) / 10 ^ 29 ≤ 1 / 10 ^ 20 := by norm_num
+  nlinarith [hXX]
+
+/-- the Cartesian point of a number as a complex number -/
+noncomputable def cpt (g : Geonum F) : ℂ := ⟨cx g, cy g⟩
+
+theorem areaRefF_eq (p1 p2 p3 p4 : Geonum F) : areaRefF p1 p2 p3 p4 = areaRef (cpt p1) (cpt p2) (cpt p3) (cpt p4) := by
+  unfold areaRefF areaRef cross cpt
+  simp only [Complex.sub_re, Complex.sub_im]
+
+/-- (B) **area invariance in rounded arithmetic**: two quadrilaterals whose Cartesian corners differ by a common translation `z` and rotation
+    `w` (`|w| = 1`) have the same helper area to within twice the helper's tolerance; with `areaRef_shoelace` the common value is the
+    shoelace area whenever the two triangles have the same orientation -/
+theorem area_invariant_float {p1 p2 p3 p4 q1 q2 q3 q4 : Geonum F} {R : ℝ} {K : ℕ} (z w : ℂ) (hw : Complex.normSq w = 1)
+    (c1 : cpt q1 = z + w * cpt p1) (c2 : cpt q2 = z + w * cpt p2) (c3 : cpt q3 = z + w * cpt p3) (c4 : cpt q4 = z + w * cpt p4)
+    (hp : |val (Affine.areaQuadrilateral p1 p2 p3 p4) - areaRefF p1 p2 p3 p4| ≤ areaTolF F R K)
+    (hq : |val (Affine.areaQuadrilateral q1 q2 q3 q4) - areaRefF q1 q2 q3 q4| ≤ areaTolF F R K) :
+    |val (Affine.areaQuadrilateral q1 q2 q3 q4) - val (Affine.areaQuadrilateral p1 p2 p3 p4)| ≤ 2 * areaTolF F R K := by
+  rw [areaRefF_eq] at hp hq
+  rw [c1, c2, c3, c4, areaRef_translate, areaRef_rotate _ _ _ _ _ hw] at hq
+  rw [abs_le] at hp hq ⊢
+  constructor <;> linarith [hp.1, hp.2, hq.1, hq.2]
+
+/-- non-vacuity of `area_float`: the four unit corners on the axes (a square of area 2), in any conforming arithmetic -/
+example : |val (Affine.areaQuadrilateral (⟨one, ⟨zero, 0⟩⟩ : Geonum F) ⟨one, ⟨zero, 1⟩⟩ ⟨one, ⟨zero, 2⟩⟩ ⟨one, ⟨zero, 3⟩⟩)
+      - areaRefF (⟨one, ⟨zero, 0⟩⟩ : Geonum F) ⟨one, ⟨zero, 1⟩⟩ ⟨one, ⟨zero, 2⟩⟩ ⟨one, ⟨zero, 3⟩⟩| ≤ areaTolF F 1 5 := by
+  have hm : ∀ k : ℕ, (⟨one, ⟨zero, k⟩⟩ : Geonum F).MagDom := fun k =>
+    ⟨fin_one, by show 0 ≤ val (one : F); rw [val_one]; norm_num, by
+      show val (one : F) ≤ 10 ^ 100; rw [val_one]; exact one_le_pow₀ (by norm_num)⟩
+  have hr : ∀ k : ℕ, val (⟨one, ⟨zero, k⟩⟩ : Geonum F).mag ≤ 1 := fun k => by show val (one : F) ≤ 1; rw [val_one]
+  exact area_float (inv_zero 0) (inv_zero 1) (inv_zero 2) (inv_zero 3) (hm 0) (hm 1) (hm 2) (hm 3) (hr 0) (hr 1) (hr 2) (hr 3)
+    (by norm_num) (by norm_num) (by norm_num) (by norm_num) (by norm_num)
+
+end B
+
 /-! ### R — on the arithmetic that really rounds (`R64`) -/
 section R
 
@@ -392,6 +821,18 @@ theorem activations_rounded {g : Geonum R64} (hpos : 1 / 10 ^ 100 ≤ g.mag.v) (
     |(ML.activate g .tanh).mag.v| ≤ g.mag.v :=
   ⟨sigmoid_bounds (F := R64) trivial hpos hle ha,
    tanh_bound (F := R64) trivial (le_trans (by positivity) hpos) ha⟩
+
+/-- (R) the quadrilateral area helper against the two-triangle cross-product area, for all binary64 corners up to `1e40` with blade sums up to
+    `1e6`: within `6e-6·(1+R)²` -/
+theorem area_rounded {p1 p2 p3 p4 : Geonum R64} {R : ℝ} {K : ℕ}
+    (h1 : p1.angle.Inv) (h2 : p2.angle.Inv) (h3 : p3.angle.Inv) (h4 : p4.angle.Inv)
+    (m1 : p1.MagDom) (m2 : p2.MagDom) (m3 : p3.MagDom) (m4 : p4.MagDom)
+    (r1 : p1.mag.v ≤ R) (r2 : p2.mag.v ≤ R) (r3 : p3.mag.v ≤ R) (r4 : p4.mag.v ≤ R) (hR : R ≤ 10 ^ 40)
+    (b2 : p2.angle.blade + p1.angle.blade + 2 ≤ K) (b3 : p3.angle.blade + p1.angle.blade + 2 ≤ K)
+    (b4 : p4.angle.blade + p1.angle.blade + 2 ≤ K) (hK : K ≤ 10 ^ 6) :
+    |(Affine.areaQuadrilateral p1 p2 p3 p4).v - areaRefF p1 p2 p3 p4| ≤ 6 / 10 ^ 6 * ((1 + R) * (1 + R)) :=
+  le_trans (area_float (F := R64) h1 h2 h3 h4 m1 m2 m3 m4 r1 r2 r3 r4 hR b2 b3 b4 (le_trans hK (by norm_num)))
+    (areaTolF_small (F := R64) (le_trans m1.2.1 r1) hK)
 
 end R
 
